@@ -72,6 +72,7 @@ const (
 	kCoopLag  = "coop-lag"  // works until d (returns nil); when signalled earlier ignores the signal for δ, then returns nil
 	kBlind    = "blind"     // returns at d without ever looking at the signal
 	kWaitOnly = "wait-only" // only waits for the signal, ignores it for δ, returns nil (never finishes on its own)
+	kDeafWait = "deaf-wait" // never finishes on its own either, but works in uninterruptible steps of δ and looks at its signal only between two steps (δ from 0.4·T to 6·T)
 
 	pLive = "live"
 	pPre  = "cancelled-before-call"
@@ -102,6 +103,9 @@ func (s scen) T() time.Duration     { return time.Duration(s.TNs) }
 func (s scen) D() time.Duration     { return time.Duration(s.TNs + s.OffNs) }
 func (s scen) Delta() time.Duration { return time.Duration(s.DeltaNs) }
 func (s scen) coop() bool           { return s.Kind != kBlind }
+
+// waitKind: the action never finishes on its own (d is meaningless).
+func waitKind(k string) bool { return k == kWaitOnly || k == kDeafWait }
 
 // P is the instant at which the parent context is cancelled (inf = never).
 func (s scen) P() time.Duration {
@@ -137,8 +141,9 @@ type state struct {
 	ownErr error
 
 	invoked   atomic.Bool
-	observed  atomic.Bool // the action took the "signalled" branch
-	returned  atomic.Bool // the action wrapper has recorded its return (set immediately before returning)
+	observed  atomic.Bool  // the action took the "signalled" branch
+	obsNs     atomic.Int64 // instant (since start, +1) at which the action looked at its signal and found it triggered
+	returned  atomic.Bool  // the action wrapper has recorded its return (set immediately before returning)
 	actRetNs  atomic.Int64
 	actResErr atomic.Value // errBox
 	actCtx    atomic.Value // ctxBox
@@ -199,6 +204,29 @@ func (st *state) body(signal <-chan struct{}, signalBool <-chan bool) error {
 	case kBlind:
 		time.Sleep(sc.D())
 		return st.finish(st.ownResult())
+	case kDeafWait:
+		for {
+			time.Sleep(sc.Delta())
+			got := false
+			if signalBool != nil {
+				select {
+				case <-signalBool:
+					got = true
+				default:
+				}
+			} else {
+				select {
+				case <-signal:
+					got = true
+				default:
+				}
+			}
+			if got {
+				st.obsNs.Store(int64(time.Since(st.start)) + 1)
+				st.observed.Store(true)
+				return st.finish(nil)
+			}
+		}
 	case kWaitOnly:
 		wait(nil) // a nil timer channel never fires
 		st.observed.Store(true)
@@ -318,7 +346,7 @@ func judgeCommon(r *vrun.Run, sc scen, s snapshot, settledObserved bool, extra m
 	wit := func() map[string]any {
 		w := map[string]any{"scenario": sc, "result": errStr(s.Res), "result_class": cls, "runner_returned_at_ns": s.RetNs,
 			"action_invoked": s.ActionInvoked, "action_returned_by_then": s.ActionReturned, "action_observed_signal": s.Observed,
-			"deterministic": sc.Part == "bubble" && (sc.Kind == kWaitOnly || sc.D() != sc.E())}
+			"deterministic": sc.Part == "bubble" && (waitKind(sc.Kind) || sc.D() != sc.E())}
 		for k, v := range extra {
 			w[k] = v
 		}
@@ -373,7 +401,7 @@ func judgeCommon(r *vrun.Run, sc scen, s snapshot, settledObserved bool, extra m
 		}
 		// timeout/cancelled kind "once the action has observed its stop signal": decidable for an action that can
 		// only finish through its signal (wait-only; in a bubble also any cooperative action with d > E, see sweep.go)
-		if (cls == "timeout" || cls == "cancelled") && sc.Kind == kWaitOnly {
+		if (cls == "timeout" || cls == "cancelled") && waitKind(sc.Kind) {
 			r.Obs("signal_delivery_checks", 1)
 			if !settledObserved {
 				r.Violation(sig("signal-not-delivered-on-"+cls, "kind", sc.Kind),
@@ -529,7 +557,7 @@ func replay(r *vrun.Run) {
 	switch {
 	case w.Scenario != nil && w.Scenario.Part == "bubble":
 		n := 200
-		if w.Scenario.Kind != kWaitOnly && w.Scenario.D() == w.Scenario.E() {
+		if !waitKind(w.Scenario.Kind) && w.Scenario.D() == w.Scenario.E() {
 			n = 5000 // equal instants: the runtime's scheduling decides, so the replay repeats the case more often
 		}
 		for i := 0; i < n; i++ {
